@@ -32,6 +32,8 @@ type Keygen struct {
 	storer         ECDSAKeyshareStorer
 	threshold      int
 	subscriptionID comm.SubscriptionID
+	// keyshareLocked is true while this process holds the keyshare lock (taken in Run)
+	keyshareLocked bool
 }
 
 func NewKeygen(
@@ -69,6 +71,7 @@ func (k *Keygen) Run(
 	ctx, k.Cancel = context.WithCancel(ctx)
 
 	k.storer.LockKeyshare()
+	k.keyshareLocked = true
 	parties := common.PartiesFromPeers(k.Host.Peerstore().Peers())
 	k.PopulatePartyStore(parties)
 
@@ -104,10 +107,14 @@ func (k *Keygen) Run(
 	return p.Wait()
 }
 
-// Stop ends all subscriptions created when starting the tss process and unlocks keyshare.
+// Stop ends all subscriptions created when starting the tss process and unlocks keyshare
+// if the process was started and locked it.
 func (k *Keygen) Stop() {
 	k.Communication.UnSubscribe(k.subscriptionID)
-	k.storer.UnlockKeyshare()
+	if k.keyshareLocked {
+		k.keyshareLocked = false
+		k.storer.UnlockKeyshare()
+	}
 	k.Cancel()
 }
 
